@@ -12,7 +12,7 @@ from skgstat import Variogram, DirectionalVariogram, MetricSpace
 METRICS = ['euclidean', 'cityblock', 'chebyshev']
 ESTS = ['matheron', 'cressie', 'dowd']
 MODELS = ['spherical', 'exponential', 'gaussian', 'stable', 'spherical+gaussian']
-FITM = ['trf', 'lm']
+FITM = ['trf', 'lm', 'ml']
 SIGMA = [None, 'linear', 'sqrt']
 AUTO = ['sturges', 'scott', 'sqrt']
 REL = [0.3, 0.5, 0.7]
@@ -52,7 +52,7 @@ class World:
 
     def kwargs(self, S):
         d, va, nl, ml, bf, e, m, nu, fm, sg, az, tl, bw, dm = S
-        kw = dict(estimator=ESTS[e % 3], model=MODELS[m % len(MODELS)], use_nugget=bool(nu), fit_method=FITM[fm % 2], fit_sigma=SIGMA[sg % 3], dist_func=METRICS[d % 3])
+        kw = dict(estimator=ESTS[e % 3], model=MODELS[m % len(MODELS)], use_nugget=bool(nu), fit_method=FITM[fm % 3], fit_sigma=SIGMA[sg % 3], dist_func=METRICS[d % 3])
         if bf[0] == 5:
             kw['bin_func'] = self.edges[bf[1] % 3].copy()
         else:
@@ -86,7 +86,7 @@ class World:
         elif t == 6:
             V.use_nugget = bool(a)
         elif t == 7:
-            V.fit_method = FITM[a % 2]
+            V.fit_method = FITM[a % 3]
         elif t == 8:
             V.fit_sigma = SIGMA[a % 3]
         elif t == 9:
@@ -106,7 +106,13 @@ class World:
     def read(V, t):
         try:
             if t == 20:
-                return ('ok', np.asarray(V.bins, float).tolist())
+                arr = V.bins
+                res = np.array(arr, float).tolist()
+                try:
+                    arr *= 0.5          # a caller-side write into the returned array: the instance keeps its own edges
+                except Exception:
+                    pass
+                return ('ok', res)
             if t == 21:
                 return ('ok', int(V.n_lags))
             if t == 22:
@@ -135,7 +141,7 @@ def same(a, b):
 
 def setter_alphabet(rng, directional):
     ops = [[0, 5], [0, 8], [1, [0]], [1, [1]], [1, [3, 1]], [1, [4, 1]], [2, [0]], [2, [1]], [2, [4, 0]], [2, [5, 0]], [3, 1],
-           [4, 1], [4, 2], [5, 1], [5, 3], [6, True], [6, False], [7, 1], [8, 1], [9, 1], [9, 2], [10, 1], [10, 2], [10, 3], [10, 0]]
+           [4, 1], [4, 2], [5, 1], [5, 3], [6, True], [6, False], [7, 1], [7, 2], [8, 1], [8, 2], [9, 1], [9, 2], [10, 1], [10, 2], [10, 3], [10, 0]]
     if directional:
         ops += [[11, 1], [11, 2], [12, 1], [12, 3], [13, 1], [13, 3], [14, 1]]
     return ops
@@ -233,15 +239,21 @@ def run(ctx, replay=None):
             for a in alpha:
                 histories.append((world, S0, [a] + reads, 'exh1'))
             pairs = list(itertools.product(alpha, alpha))
+            must = []
             if not ctx.thorough():
                 rng.shuffle(pairs)
                 # always present: every assignment before / after a change of the distances (metric), which makes the instance
                 # re-resolve the settings it remembers "as passed" (relative maxlag, quantile bandwidth, derived n_lags)
                 must = [(a, b) for a, b in pairs if (a[0] == 9) != (b[0] == 9) and (a[0] == 9 and a[1] == 1 or b[0] == 9 and b[1] == 1)] if not raw else []
+                # ... and every fit method followed by / following a change of the weights or the nugget setting
+                must += [(a, b) for a, b in pairs if (a, b) not in must and ((a[0] == 7 and b[0] in (6, 8)) or (a[0] in (6, 8) and b[0] == 7))]
                 rest = [pq for pq in pairs if pq not in must]
                 pairs = must + rest[: (120 if not directional else 60) if not raw else 40]
             for a, b in pairs:
                 histories.append((world, S0, [a, rng.choice(reads), b, [24], [22], [23], [20], [21]], 'exh2'))
+                if not ctx.thorough() and (a[0] == 7 or b[0] == 7) and (a, b) in must:
+                    # a fit between the two assignments (the parameters are read): stale coefficients need one to exist
+                    histories.append((world, S0, [a, [24], b, [24], [21]], 'exh2'))
             # random histories up to length 8 (12), reads interleaved
             nr = (60 if not raw else 30) if not ctx.thorough() else 1000
             for _ in range(nr):
